@@ -100,6 +100,17 @@ def handle : List String → String
       let r := fileResponse cs (parseBool head) cur mt h rng content
       s!"{r.status} {showCR r.contentRange} {showOptInt r.contentLength} {showHex r.body}"
     | _, _, _, _, _, _ => "bad-op"
+  | ["race", cs, head, cur, mt, size, im, inm, um, ms, ir, rng, atOpen] =>
+    let ao : Option (Option (Bytes × Nat)) :=
+      if atOpen == "none" then some none
+      else match atOpen.splitOn ":" with
+        | [m, c] => (do let m ← m.toNat?; let c ← parseHex c; pure (some (c, m)))
+        | _ => none
+    match cs.toNat?, parseStr cur, mt.toNat?, size.toNat?, parseCondHdrs im inm um ms ir, parseOptStr rng, ao with
+    | some cs, some cur, some mt, some size, some h, some rng, some ao =>
+      let r := fileResponseRace Gen.C15.fstatAlwaysAdopted cs (parseBool head) cur mt size h rng ao
+      s!"{r.status} {showCR r.contentRange} {showOptInt r.contentLength} {showHex r.body}"
+    | _, _, _, _, _, _, _ => "bad-op"
   | ["norm", s] =>
     match parseStr s with
     | some s => showStr (normpath s)
